@@ -31,7 +31,8 @@ deriving DecidableEq, Repr
 
 structure Method where
   name : Name
-  line : Nat
+  /-- the `line` attribute (`#IMPLIED` in report.dtd: absent for classes without debug info) -/
+  line : Option Nat
   /-- `covered` of the method's METHOD counter (`none`: the method has no such counter) -/
   covered : Option Nat
 deriving DecidableEq, Repr
@@ -87,8 +88,10 @@ def Method.executed (m : Method) : Bool :=
   | some c => decide (c > 0)
   | none => false
 
+/-- one entry per `<method>`, in document order (start line 0 stands for "no `line` attribute";
+the parser rejects such a report, see `Report.lined`) -/
 def Class.funs (c : Class) : List (Name × Fn) :=
-  c.methods.map fun m => (c.simple ++ cHash :: m.name, ⟨m.line, m.executed⟩)
+  c.methods.map fun m => (c.simple ++ cHash :: m.name, ⟨m.line.getD 0, m.executed⟩)
 
 def Item.file : Item → Name
   | .cls c => c.file
@@ -125,6 +128,32 @@ def Package.sem (p : Package) : List (Name × Cov) :=
 
 def sem (r : Report) : List (Name × Cov) := r.flatMap Package.sem
 
+/-! ### what the parser does with repeated method names
+
+The parser keys the functions of a file by `Class#name` (the `desc` attribute is not read) and
+inserts: when a name repeats – overloaded methods, several `<init>` – later entries replace
+earlier ones. `semL` is `sem` with exactly that rule; it equals `sem` when the names are unique
+(`Lemmas.semL_eq_sem`). -/
+
+/-- `HashMap::insert` of every pair in order: the value of a key is the one of its LAST
+occurrence (`Lemmas.get?_insertAll`); the list keeps the position of the first occurrence -/
+def insertAll (kvs : List (Name × Fn)) : List (Name × Fn) :=
+  kvs.foldl (fun m kv => set m kv.1 kv.2) []
+
+/-- the value of the last pair with key `k` -/
+def lastVal (kvs : List (Name × Fn)) (k : Name) : Option Fn :=
+  ((kvs.filter fun kv => decide (kv.1 = k)).getLast?).map (·.2)
+
+def covForL (items : List Item) (f : Name) : Cov :=
+  { lines := lineCov (linesFor items f)
+    branches := branchCov (linesFor items f)
+    functions := insertAll (items.flatMap (Item.funsFor f)) }
+
+def Package.semL (p : Package) : List (Name × Cov) :=
+  (fileNames p.items).map fun f => (path p.name f, covForL p.items f)
+
+def semL (r : Report) : List (Name × Cov) := r.flatMap Package.semL
+
 /-! ### which abstract reports are well formed -/
 
 def SourceFile.wf (s : SourceFile) : Bool := decide (s.lines.map (·.nr)).Nodup
@@ -147,6 +176,36 @@ def Package.wf (p : Package) : Bool :=
   && (fileNames p.items).all fun f => decide ((p.items.flatMap (Item.funsFor f)).map (·.1)).Nodup
 
 def Report.wf (r : Report) : Bool := r.all Package.wf
+
+def Item.wfSrc : Item → Bool
+  | .cls _ => true
+  | .src s => s.wf
+
+/-- the part of `Package.wf` that does not concern methods: line numbers unique within a source
+file, source file names unique within the package -/
+def Package.wfSrc (p : Package) : Bool :=
+  p.items.all Item.wfSrc && decide (p.items.filterMap Item.srcName?).Nodup
+
+def Report.wfSrc (r : Report) : Bool := r.all Package.wfSrc
+
+/-- every `<method>` has a `line` attribute -/
+def Class.lined (c : Class) : Bool := c.methods.all fun m => m.line.isSome
+
+def Item.lined : Item → Bool
+  | .cls c => c.lined
+  | .src _ => true
+
+def Report.lined (r : Report) : Bool := r.all fun p => p.items.all Item.lined
+
+/-- every branch line asks for a vector of at most `cap` entries -/
+def SourceFile.fits (cap : Nat) (s : SourceFile) : Bool :=
+  s.lines.all fun l => decide (l.cb + l.mb ≤ cap)
+
+def Item.fits (cap : Nat) : Item → Bool
+  | .cls _ => true
+  | .src s => s.fits cap
+
+def Report.fits (cap : Nat) (r : Report) : Bool := r.all fun p => p.items.all (Item.fits cap)
 
 /-! ## serialisations -/
 
@@ -253,7 +312,7 @@ def MSeg.covered? : MSeg → Option Nat
 
 structure XMethod where
   name : Name
-  line : Nat
+  line : Option Nat
   tag : Name
   attrs : List Attr
   body : List MSeg
@@ -265,7 +324,10 @@ def XMethod.events (m : XMethod) : List XmlEvent :=
 
 def XMethod.wf (m : XMethod) : Bool :=
   decide (localName m.tag = sMethod) && nodupKeys m.attrs && hasAttr m.attrs sName m.name
-  && hasNum U32MAX m.attrs sLine m.line && m.body.all MSeg.wf
+  && (match m.line with
+      | some l => hasNum U32MAX m.attrs sLine l
+      | none => hasNoKey m.attrs sLine)
+  && m.body.all MSeg.wf
 
 /-- the last METHOD counter counts -/
 def XMethod.abs (m : XMethod) : Method :=
@@ -385,8 +447,17 @@ def events (x : XReport) : List XmlEvent := x.flatMap RSeg.events
 /-- the abstract report a serialisation denotes -/
 def abs (x : XReport) : Report := x.filterMap RSeg.pkg?
 
-/-- a well-formed serialisation of a well-formed report -/
+/-- a well-formed serialisation of a well-formed report (method names unique within their class
+and `Class#method` unique within a file: the quantifier of the property) -/
 def wf (x : XReport) : Bool := x.all RSeg.wf && Report.wf (abs x)
+
+/-- a well-formed serialisation of ANY report as far as methods go (names may repeat: overloads);
+line numbers unique within a source file, source file names unique within a package -/
+def wfSrc (x : XReport) : Bool := x.all RSeg.wf && Report.wfSrc (abs x)
+
+/-- the two conditions under which the parser returns `Ok` on a well-formed serialisation: every
+`<method>` has a `line` attribute, and no `<line>` asks for a branch vector longer than `cap` -/
+def good (cap : Nat) (x : XReport) : Bool := Report.lined (abs x) && Report.fits cap (abs x)
 
 /-! ### canonical renderers (to show that the conditions above are met by ordinary XML) -/
 
